@@ -1063,7 +1063,13 @@ func (c *Conn) handleConnected() bool {
 		return false
 	}
 	onConnected(c, nil)
-	c.resetRead()
+	// The callback may have written more than the socket takes, the writing
+	// event set by addDialer is dropped only if nothing is left to flush.
+	c.mux.Lock()
+	if len(c.writeList) == 0 {
+		c.resetRead()
+	}
+	c.mux.Unlock()
 	return true
 }
 
